@@ -33,7 +33,7 @@ CLAIMS = {
             "slices (empty, offset, zero-sized elements), strings (empty, non-ASCII, interior and trailing NUL, only-NUL, white-space-framed), Option of a raw pointer, module-path spellings of Option/Result, None/Some and Ok/Err extremes, extreme "
             "integers, impl Into sources, by-value struct, out-parameter, callbacks stopping at each position, iterators of length 0/1/4, fn "
             "pointer, raw pointer, and every return arm; the callee's view (elements, length, address) and the caller's view of the result and "
-            "of its own buffers are compared with the direct call.",
+            "of its own buffers are compared with the direct call. Argument shapes include Option<&str> / Option<&[u8]> (Some of an empty borrow) and a plain associated type as element of wrapped argument shapes.",
             "DESIGN.md §4 C02",
             "Value domains are the listed finite ones.",
             "bounded exhaustive enumeration of inputs x programs, differential against direct calls on the real code",
@@ -45,7 +45,7 @@ CLAIMS = {
             "crate (tuple, nested slice, Rust-ABI fn pointer) must be rejected or the run is a machinery failure; a token-level pass over the same expansions AND over "
             "the library's own built-in external traits (cglue_builtin_ext_traits!(), without features and with cglue-gen's task + futures features) checks "
             "that every vtable field is an extern \"C\" fn pointer whose signature contains no Rust-only type at any depth (pointees included: rustc's "
-            "definition lints stop at pointers) and that every generated struct carries repr(C)/transparent.",
+            "definition lints stop at pointers) and that every generated struct carries repr(C)/transparent. The task-feature C waker type is linted by value with cglue built with task + futures (own positive control); traits using Option<&str> / Option<&[T]> are outside the quantifier and not judged.",
             "DESIGN.md §4 C03",
             "rustc's FFI lints are the yardstick (the property's own wording); programs outside G are not claimed.",
             "exhaustive enumeration of a bounded program grammar, compiler lint as per-program oracle",
@@ -67,7 +67,7 @@ CLAIMS = {
             "the REAL cglue-bindgen binary (stub cbindgen on PATH) and every generated wrapper is called from a generated mock translation unit "
             "compiled with gcc/g++; each call must reach exactly its vtable slot with the container and the same arguments, return the slot's "
             "result, and consuming wrappers / drop helpers must release instance and context exactly once while holding a context clone across the call (every context clone is a distinct handle in the mock, so a double release is seen even next to a leak). "
-            "Ten confirmed tool defects are recorded as known findings; causes that depend on unverifiable details of cbindgen's C++ output are recorded, not judged.",
+            "Ten confirmed tool defects are recorded as known findings; causes that depend on unverifiable details of cbindgen's C++ output are recorded, not judged. Group and trait names built from the generator's own words (Container, Vtbl, CGlue) are part of the model space.",
             "DESIGN.md §4 C17, §5.6",
             "No cbindgen offline: the synthesiser (gen/bindgen_headers.py) is a model of cbindgen 0.20 validated against the published example headers.",
             "exhaustive enumeration of a bounded header grammar through the real tool, executed against mock vtables",
@@ -76,7 +76,7 @@ CLAIMS = {
             "Same header space plus several context types, wrapped-return structs, planted foreign declarations with CGlue-like names, users of const TypeLayout* (undeclared / struct / C++ alias), all config "
             "combinations and 8 argument layouts: the processed header must compile on its own (gcc -std=c99 / g++ -std=c++11), in C every object type must keep the size the Rust side gives it, R fresh-process "
             "runs must be byte-identical (R=5/25) and a further run over a stale, longer file at the output path must give the same bytes, planted declarations must survive verbatim and in order, the stub cbindgen must receive exactly the "
-            "post-`--` arguments minus the output path, and the processed header must land in that path.",
+            "post-`--` arguments minus the output path, and the processed header must land in that path. Includes a header of 1200 user records (beyond one pipe buffer); a tool run that never finishes is a failed run.",
             "DESIGN.md §4 C18, §5.5",
             "Synthesised cbindgen output (see C17).",
             "exhaustive enumeration of a bounded header/config grammar through the real tool, repeated-run and compiler oracles",
@@ -122,27 +122,30 @@ CLAIMS = {
             "4-argument cglue_impl_group! form with a Fwd<&mut T> container) x all 2^n implementing types x all 2^n-1 "
             "requested subsets x {check, as_ref, as_mut, cast, into} x {Box, Mut, Ref}; success iff requested subset of enabled; on success "
             "every mandatory and requested method returns the value of this instance and trait, mutations reach the instance, cast+upcast gives "
-            "a group with exactly the enabled set, payload drop counts exact.",
-            "DESIGN.md §4 C08",
+            "a group with exactly the enabled set (also on the way back through the generated From impl), payload drop counts exact. Groups with built-in "
+            "traits (Debug, Display, Clone) in the mandatory list: every operation for every enabled request must be usable and offer the mandatory traits "
+            "on its result, decided by rustc with one probe per cell (gen/castprobe_c08.py).",
+            "DESIGN.md §4 C08, §9.4b",
             "n <= 4; methods are &self/&mut self returning u64.",
             "exhaustive enumeration of a finite configuration matrix on the real code",
-            "h_objects/objs"),
+            "h_objects/objs + gen/castprobe_c08.py"),
     "C09": ("exploration",
             "Complete matrix handle kind x payload class x marker x context x form (plain into_opaque / trait_obj! / group_obj!): one probe per "
             "cell asks rustc whether the opaque type has the marker; the twin probe on the concrete handle decides what is allowed; failures must "
             "be E0277 naming the marker; cells whose conversion is rejected are recorded as not expressible. The matrix is swept once per feature configuration of the "
             "cglue crate (default, layout_checks). 180 cells violate the property on "
-            "the current tree (known findings, DESIGN 5.2).",
+            "the current tree (known findings, DESIGN 5.2). Std wrappers (Pin, Box, Arc, Option) around the pointer kinds are swept as handle kinds, so that a conversion rule added for one of them is judged like the others.",
             "DESIGN.md §4 C09, §5.2",
             "rustc's auto-trait solver is the oracle per cell; one representative type per payload class.",
             "exhaustive enumeration of a finite configuration matrix, compiler as per-cell oracle",
             "gen/sendsync_c09.py"),
     "C20": ("exploration",
-            "For 19 base definitions (11 quick; incl. traits reachable only through another trait's wrapped return type / opaque object "
+            "For 21 base definitions (13 quick; incl. bases that use every wrapped shape twice, incl. traits reachable only through another trait's wrapped return type / opaque object "
             "argument, callbacks, iterators, element types) every single-edit twin (add/remove/rename/reorder method, argument/return C type, receiver, "
             "int_result toggle, group trait add/remove/reorder, mandatory add) plus identical twins and missing sides is expanded by the real "
             "macros under layout_checks and compared through compare_layouts / VerifyLayout::check in both directions, for every container and "
-            "context (thorough); all 9 ordered pairs of VerifyLayout::and; every sequence of up to 3 comparisons in one process (the verdict must not depend on earlier calls).",
+            "context (thorough); all 9 ordered pairs of VerifyLayout::and; every sequence of up to 3 comparisons in one process (the verdict must not depend on earlier calls); "
+            "and every call of a family placed before / inside (other thread, forced through abi_stable's extra-checks hook as a scheduling point) / after the walk of another comparison.",
             "DESIGN.md §4 C20",
             "abi_stable's comparison is trusted; twins are modules of one crate; edits that keep every C type are recorded, not judged.",
             "exhaustive enumeration of single-edit program pairs on the real code",
@@ -175,7 +178,9 @@ CLAIMS = {
             "ALL 2^32 raw OS error codes through encode/decode (both tiers); every listed non-OS ErrorKind. Generated half: every trait "
             "of the grammar using int_result / no_int_result / a result alias (with and without payload, droppable payload, io::Error, "
             "fmt::Error) x receivers x call sequences through all containers, differential against the direct call; and every entry marked to "
-            "use integer results (method-level, trait-level, alias, both levels in one trait) must have a C signature that returns the i32 code.",
+            "use integer results (method-level, trait-level, alias, both levels in one trait) must have a C signature that returns the i32 code; the raw "
+            "entries of a trait-level int_result trait are driven with one re-used poisoned output slot per payload kind (plain, droppable, wrapped object): "
+            "Err / Ok / Err, every byte unchanged after a failed call.",
             "DESIGN.md §4 C13",
             "std::io::Error::raw_os_error is the reference for 'same OS code'.",
             "exhaustive enumeration of the complete input domain (2^32 codes) on the real code",
@@ -206,7 +211,7 @@ CLAIMS = {
             "published layout with that module's functions; the opaque words must not be interpreted locally), is executed on the real code; after every step "
             "the caller's wake count must equal the wake operations and its refcount must never go below the start value and return to it when "
             "no foreign waker is left; it is never used after its last release and never released while a foreign waker lives. Concurrent half: loom explores all interleavings of 2-3 threads operating on foreign wakers over the real "
-            "task/mod.rs compiled against a loom-backed tarc::BaseArc.",
+            "task/mod.rs compiled against a loom-backed tarc::BaseArc. Stream and Sink::poll_flush are also polled in Ready mode (a wake made during a poll that returns Ready must reach the caller).",
             "DESIGN.md §4 C19",
             "Thread hand-off at operation granularity in the history half; loom's model + the tarc shim in the concurrent half; bounded depth.",
             "explicit-state exploration of the real code + loom (DPOR over all interleavings within a preemption bound)",
@@ -215,11 +220,14 @@ CLAIMS = {
             "Matrix runtime type x element layout x direction: values made by the Rust API are operated only through #[repr(C)] mirror structs "
             "transcribed from the published header (release, clone, read, grow, append, invoke, advance), and values assembled field by field "
             "are consumed by the Rust API; effects (drop counts, refcounts, contents, call counts) must equal those of the Rust operation; "
-            "tag values and payload offsets of COption/CResult are read and written as raw C structs.",
-            "DESIGN.md §4 C16",
+            "tag values and payload offsets of COption/CResult are read and written as raw C structs. A C translation unit including the published "
+            "bindings.h cross-checks the same values (h_cabi), and a C++ driver operates the runtime-type templates the real cglue-bindgen writes into C++ "
+            "headers: container layout (2 x 6 x 7 instance / context / temporary-storage choices) against the plain struct, std::string <-> CSliceRef for "
+            "every short byte string over an alphabet with NUL, OpaqueCallback from vector / functor for every item count and stop position.",
+            "DESIGN.md §4 C16, §9.4b",
             "Mirror structs are a faithful transcription of the published declarations; rustc repr(C) == C ABI on this target.",
             "exhaustive enumeration of a finite type/operation matrix on the real code",
-            "h_runtime/c16"),
+            "h_runtime/c16 + gen/cabi_c16.py + gen/bindgen_cpp_c16.py"),
 }
 
 NOT_YET = {}
